@@ -33,7 +33,8 @@ CONSTANTS Call,        \* session calls
           LDef,        \* [LCall -> peer]
           PeerOrder,   \* sequence of peers in the order of their id strings
           None, MaxSeq,
-          BugPtr, BugWait, BugListen
+          BugPtr, BugWait, BugListen,
+          Mut          \* "" or the name of a model mutation (see RelayDir.tla): a plausible defect re-created in the model
 
 Peer == {PeerOrder[i] : i \in 1..Len(PeerOrder)}
 Idx(p) == CHOOSE i \in 1..Len(PeerOrder) : PeerOrder[i] = p
@@ -53,15 +54,16 @@ VARIABLES sess,     \* [Key -> [ex, a, b, hasCur]]          Server.sessions
           peers,    \* [Peer -> [ex, listening, wants, hasCur]]  Server.peers
           lst, lusurp, lsent, lwch, lstale, lret,            \* listen calls
           badDeliv, \* monitor: delivered while the recipient's announced epoch is not the current one
-          dropFlag  \* [Call -> BOOLEAN] request stamped with the announced epoch dropped as stale
+          dropFlag, \* [Call -> BOOLEAN] request stamped with the announced epoch dropped as stale
+          badReq    \* monitor: a request stamped with a non-current epoch changed state, or an ack did not name the delivered message
 
-vars == <<sess, trk, cst, wch, prevOpen, ret, peers, lst, lusurp, lsent, lwch, lstale, lret, badDeliv, dropFlag>>
+vars == <<sess, trk, cst, wch, prevOpen, ret, peers, lst, lusurp, lsent, lwch, lstale, lret, badDeliv, dropFlag, badReq>>
 
 Slot(k, isA) == IF isA THEN sess[k].a ELSE sess[k].b
 Local(c) == Slot(KeyOf(c), IsA(c))
 Remote(c) == Slot(KeyOf(c), ~IsA(c))
 
-NoTrk == [recv |-> 0, recvSent |-> 0, recvClear |-> 0, outAcked |-> 0]
+NoTrk == [recv |-> 0, recvSent |-> 0, recvClear |-> 0, outAcked |-> 0, recvEp |-> "cur"]   \* recvEp: monitor, epoch of the pending message
 NoSess == [ex |-> FALSE, a |-> None, b |-> None, hasCur |-> FALSE]
 NoPeer == [ex |-> FALSE, listening |-> FALSE, wants |-> {}, hasCur |-> FALSE]
 
@@ -81,6 +83,7 @@ Init ==
   /\ lret = [l \in LCall |-> ""]
   /\ badDeliv = FALSE
   /\ dropFlag = [c \in Call |-> FALSE]
+  /\ badReq = FALSE
 
 \* sessionTracker.broadcast(): every registered call of that session holding the current channel is woken
 SessBcast(w, k, had) == [c \in Call |-> IF KeyOf(c) = k /\ had /\ cst[c] = "reg" /\ w[c] = "cur" THEN "closed" ELSE w[c]]
@@ -93,6 +96,8 @@ StaleAfter(ps, ls) == [l \in LCall |-> ls[l] \/ (lst[l] = "run" /\ ~ps[LPeer(l)]
 \* epoch bump: every announced "cur" of that session becomes "old"
 Bump(po, k) == [c \in Call |-> IF KeyOf(c) = k /\ po[c] = "cur" THEN "old" ELSE po[c]]
 ClearRem(t, rem) == IF rem # None THEN [t EXCEPT ![rem].recv = 0, ![rem].recvSent = 0] ELSE t
+\* monitor: a message still pending in a mailbox of session k when the epoch is bumped now belongs to an older epoch
+Age(t, k) == [c \in Call |-> IF KeyOf(c) = k /\ t[c].recv # 0 THEN [t[c] EXCEPT !.recvEp = "old"] ELSE t[c]]
 
 SessionRegister(c) ==
   /\ cst[c] = "idle"
@@ -102,13 +107,13 @@ SessionRegister(c) ==
          s1 == IF IsA(c) THEN [s EXCEPT !.ex = TRUE, !.a = c] ELSE [s EXCEPT !.ex = TRUE, !.b = c]
      IN /\ peers' = [peers EXCEPT ![d] = [pd EXCEPT !.ex = TRUE, !.wants = @ \cup {Src(c)}, !.hasCur = IF newWant THEN FALSE ELSE @]]
         /\ lwch' = IF newWant THEN PeerBcast(lwch, d, pd.hasCur) ELSE lwch
-        /\ trk' = ClearRem([trk EXCEPT ![c] = NoTrk], rem)
+        /\ trk' = Age(IF Mut = "noclearattach" THEN [trk EXCEPT ![c] = NoTrk] ELSE ClearRem([trk EXCEPT ![c] = NoTrk], rem), k)
         /\ sess' = [sess EXCEPT ![k] = [s1 EXCEPT !.hasCur = TRUE]]
         \* fixed: the joiner takes its wait channel before its own broadcast (wakes itself once)
         /\ wch' = [SessBcast(wch, k, s.hasCur) EXCEPT ![c] = IF BugWait THEN "cur" ELSE "closed"]
         /\ prevOpen' = Bump(prevOpen, k)
         /\ cst' = [cst EXCEPT ![c] = "reg"]
-  /\ UNCHANGED <<ret, lst, lusurp, lsent, lstale, lret, badDeliv, dropFlag>>
+  /\ UNCHANGED <<ret, lst, lusurp, lsent, lstale, lret, badDeliv, dropFlag, badReq>>
 
 \* return from Session(): deferred cleanup
 Cleanup(c, why) ==
@@ -124,50 +129,57 @@ Cleanup(c, why) ==
      /\ IF cur
         THEN /\ sess' = [sess EXCEPT ![k] = IF gone THEN NoSess ELSE [s1 EXCEPT !.hasCur = FALSE]]
              /\ wch' = SessBcast(wch, k, s.hasCur)
-             /\ trk' = ClearRem(trk, rem)
+             /\ trk' = Age(IF Mut = "nocleardetach" THEN trk ELSE ClearRem(trk, rem), k)
              /\ prevOpen' = Bump(prevOpen, k)
-             /\ peers' = ps2
+             /\ peers' = IF Mut = "wantleak" THEN peers ELSE ps2
              /\ lwch' = PeerBcast(lwch, d, pd.hasCur)
              /\ lstale' = StaleAfter(ps2, lstale)
-        ELSE UNCHANGED <<sess, wch, trk, prevOpen, peers, lwch, lstale>>
+        ELSE /\ UNCHANGED <<sess, wch, trk, peers, lwch, lstale>>
+             \* mutation: a replaced call bumps the epoch when it exits, without a broadcast
+             /\ prevOpen' = IF Mut = "bumpnoncur" THEN Bump(prevOpen, k) ELSE prevOpen
      /\ UNCHANGED <<lst, lusurp, lsent, lret, badDeliv>>
 
-SessionCancel(c) == cst[c] = "reg" /\ Cleanup(c, "cancel")
+SessionCancel(c) == cst[c] = "reg" /\ Cleanup(c, "cancel") /\ UNCHANGED badReq
 
 \* stamp \in {"cur","old","future"}; sigOK: signed by the stream identity over the signaling context, intact
+\* Cur(stamp, what): is the request treated as current?  (model mutations treat stale stamps as current)
+Cur(stamp, what) == stamp = "cur" \/ (stamp = "old" /\ Mut = what)
+
 HandleSend(c, stamp, n, sigOK) ==
   /\ cst[c] = "reg"
   /\ LET k == KeyOf(c)  s == sess[k]  rem == Remote(c) IN
-     IF ~sigOK \/ stamp = "future" THEN Cleanup(c, "err")
-     ELSE /\ IF stamp = "cur" /\ Local(c) = c /\ rem # None
-             THEN /\ trk' = [trk EXCEPT ![rem].recv = n, ![rem].recvSent = 0]
+     IF ~sigOK \/ stamp = "future" THEN Cleanup(c, "err") /\ UNCHANGED badReq
+     ELSE /\ IF Cur(stamp, "sendstale") /\ Local(c) = c /\ rem # None
+             THEN /\ trk' = [trk EXCEPT ![rem].recv = n, ![rem].recvSent = 0, ![rem].recvEp = "cur"]
                   /\ wch' = SessBcast(wch, k, s.hasCur)
                   /\ sess' = [sess EXCEPT ![k].hasCur = FALSE]
+                  /\ badReq' = (badReq \/ stamp # "cur")
                   /\ UNCHANGED dropFlag
-             ELSE /\ UNCHANGED <<trk, wch, sess>>
+             ELSE /\ UNCHANGED <<trk, wch, sess, badReq>>
                   /\ dropFlag' = [dropFlag EXCEPT ![c] = @ \/ (stamp = "old" /\ prevOpen[c] = "old" /\ Local(c) = c)]
           /\ UNCHANGED <<cst, ret, prevOpen, peers, lst, lusurp, lsent, lwch, lstale, lret, badDeliv>>
 
 HandleAck(c, stamp, n) ==
   /\ cst[c] = "reg"
   /\ LET k == KeyOf(c)  s == sess[k]  rem == Remote(c) IN
-     IF stamp = "future" THEN Cleanup(c, "err")
-     ELSE /\ IF stamp = "cur" /\ Local(c) = c /\ rem # None /\ trk[c].recvSent = n
+     IF stamp = "future" THEN Cleanup(c, "err") /\ UNCHANGED badReq
+     ELSE /\ IF Cur(stamp, "ackstale") /\ Local(c) = c /\ rem # None /\ (trk[c].recvSent = n \/ (Mut = "ackany" /\ trk[c].recvSent # 0))
              THEN /\ trk' = [trk EXCEPT ![c].recvSent = 0, ![rem].outAcked = n]
                   /\ wch' = SessBcast(wch, k, s.hasCur)
                   /\ sess' = [sess EXCEPT ![k].hasCur = FALSE]
-             ELSE UNCHANGED <<trk, wch, sess>>
+                  /\ badReq' = (badReq \/ stamp # "cur" \/ trk[c].recvSent # n)
+             ELSE UNCHANGED <<trk, wch, sess, badReq>>
           /\ UNCHANGED <<cst, ret, prevOpen, peers, lst, lusurp, lsent, lwch, lstale, lret, badDeliv, dropFlag>>
 
 HandleClear(c, stamp, n) ==
   /\ cst[c] = "reg"
   /\ LET rem == Remote(c) IN
-     IF stamp = "future" THEN Cleanup(c, "err")
-     ELSE /\ IF stamp = "cur" /\ Local(c) = c /\ rem # None
-             THEN IF trk[rem].recv = n THEN trk' = [trk EXCEPT ![rem].recv = 0]
-                  ELSE IF trk[rem].recvSent = n THEN trk' = [trk EXCEPT ![rem].recvSent = 0, ![rem].recvClear = n]
-                  ELSE UNCHANGED trk
-             ELSE UNCHANGED trk
+     IF stamp = "future" THEN Cleanup(c, "err") /\ UNCHANGED badReq
+     ELSE /\ IF Cur(stamp, "clearstale") /\ Local(c) = c /\ rem # None
+             THEN IF trk[rem].recv = n THEN trk' = [trk EXCEPT ![rem].recv = 0] /\ badReq' = (badReq \/ stamp # "cur")
+                  ELSE IF trk[rem].recvSent = n THEN trk' = [trk EXCEPT ![rem].recvSent = 0, ![rem].recvClear = n] /\ badReq' = (badReq \/ stamp # "cur")
+                  ELSE UNCHANGED <<trk, badReq>>
+             ELSE UNCHANGED <<trk, badReq>>
           /\ UNCHANGED <<sess, wch, cst, ret, prevOpen, peers, lst, lusurp, lsent, lwch, lstale, lret, badDeliv, dropFlag>>
 
 \* what one loop iteration decides (shared with RelayTrace.tla, which also records the outputs)
@@ -177,18 +189,20 @@ LoopAnnNow(c) == IF LoopOpen(c) THEN "cur" ELSE "none"
 LoopSame(c) == IF BugPtr THEN (prevOpen[c] = "none") = (LoopAnnNow(c) = "none") ELSE prevOpen[c] = LoopAnnNow(c)
 LoopNewAnn(c) == IF LoopSame(c) THEN prevOpen[c] ELSE LoopAnnNow(c)
 LoopDeliver(c) == LoopOpen(c) /\ trk[c].recv # 0
+\* does this iteration write anything to the call's stream?
+LoopEmits(c) == ~LoopUsurped(c) /\ (~LoopSame(c) \/ (LoopOpen(c) /\ (trk[c].outAcked # 0 \/ trk[c].recvClear # 0 \/ trk[c].recv # 0)))
 
 LoopStep(c) ==
   /\ cst[c] = "reg" /\ wch[c] = "closed"
   /\ LET k == KeyOf(c)  t == trk[c]  deliver == LoopDeliver(c)  newAnn == LoopNewAnn(c)
-     IN IF LoopUsurped(c) THEN Cleanup(c, "usurped")
+     IN IF LoopUsurped(c) THEN Cleanup(c, "usurped") /\ UNCHANGED badReq
         ELSE /\ wch' = LET w1 == [wch EXCEPT ![c] = "cur"] IN IF deliver THEN SessBcast(w1, k, TRUE) ELSE w1
              /\ sess' = [sess EXCEPT ![k].hasCur = ~deliver]
-             /\ trk' = IF LoopOpen(c) THEN [trk EXCEPT ![c] = [recv |-> 0, recvSent |-> IF t.recv # 0 THEN t.recv ELSE t.recvSent, recvClear |-> 0, outAcked |-> 0]] ELSE trk
+             /\ trk' = IF LoopOpen(c) THEN [trk EXCEPT ![c] = [recv |-> 0, recvSent |-> IF t.recv # 0 THEN t.recv ELSE t.recvSent, recvClear |-> 0, outAcked |-> 0, recvEp |-> "cur"]] ELSE trk
              /\ prevOpen' = [prevOpen EXCEPT ![c] = newAnn]
-             /\ badDeliv' = (badDeliv \/ (deliver /\ newAnn # "cur"))
+             /\ badDeliv' = (badDeliv \/ (deliver /\ (newAnn # "cur" \/ t.recvEp = "old")))
              /\ dropFlag' = [dropFlag EXCEPT ![c] = IF newAnn # prevOpen[c] THEN FALSE ELSE @]
-             /\ UNCHANGED <<cst, ret, peers, lst, lusurp, lsent, lwch, lstale, lret>>
+             /\ UNCHANGED <<cst, ret, peers, lst, lusurp, lsent, lwch, lstale, lret, badReq>>
 
 ListenRegister(l) ==
   /\ lst[l] = "idle"
@@ -198,7 +212,7 @@ ListenRegister(l) ==
      \* nonce++ when the tracker existed: every other non-stale running listen call on it is now usurped
      /\ lusurp' = [x \in LCall |-> IF x # l /\ LPeer(x) = p /\ pp.ex /\ lst[x] = "run" /\ ~lstale[x] THEN TRUE ELSE lusurp[x]]
      /\ lst' = [lst EXCEPT ![l] = "run"]
-  /\ UNCHANGED <<sess, trk, cst, wch, prevOpen, ret, lsent, lstale, lret, badDeliv, dropFlag>>
+  /\ UNCHANGED <<sess, trk, cst, wch, prevOpen, ret, lsent, lstale, lret, badDeliv, dropFlag, badReq>>
 
 ListenCleanup(l, why) ==
   LET p == LPeer(l)  pp == peers[p]
@@ -212,7 +226,7 @@ ListenCleanup(l, why) ==
                ELSE UNCHANGED <<peers, lwch, lstale>>
      \* nonce++ on the shared tracker: any other running call on it no longer matches
      /\ lusurp' = [x \in LCall |-> IF mine /\ x # l /\ LPeer(x) = p /\ lst[x] = "run" /\ ~lstale[x] THEN TRUE ELSE lusurp[x]]
-     /\ UNCHANGED <<sess, trk, cst, wch, prevOpen, ret, lsent, badDeliv, dropFlag>>
+     /\ UNCHANGED <<sess, trk, cst, wch, prevOpen, ret, lsent, badDeliv, dropFlag, badReq>>
 
 ListenCancel(l) == lst[l] = "run" /\ ListenCleanup(l, "cancel")
 
@@ -221,14 +235,15 @@ ListenWants(l) == IF lstale[l] THEN {} ELSE peers[LPeer(l)].wants
 \* one loop iteration: at most one ClearPeer and one SetPeer (map iteration order: any)
 ListenStepRA(l, rm, ad) ==
   /\ lst[l] = "run" /\ lwch[l] = "closed" /\ ~lusurp[l]
-  /\ LET toSet == ListenWants(l) \ lsent[l]
-         toClr == lsent[l] \ ListenWants(l)
+  /\ LET skip == Mut = "listensize" /\ Cardinality(lsent[l]) = Cardinality(ListenWants(l))
+         toSet == IF skip THEN {} ELSE ListenWants(l) \ lsent[l]
+         toClr == IF skip THEN {} ELSE lsent[l] \ ListenWants(l)
      IN /\ rm \in (IF toClr = {} THEN {None} ELSE toClr)
         /\ ad \in (IF toSet = {} THEN {None} ELSE toSet)
         /\ lsent' = [lsent EXCEPT ![l] = (@ \ {rm}) \cup (IF ad = None THEN {} ELSE {ad})]
         /\ lwch' = [lwch EXCEPT ![l] = IF rm = None /\ ad = None THEN "cur" ELSE "closed"]
         /\ peers' = IF rm = None /\ ad = None /\ ~lstale[l] THEN [peers EXCEPT ![LPeer(l)].hasCur = TRUE] ELSE peers
-  /\ UNCHANGED <<sess, trk, cst, wch, prevOpen, ret, lst, lusurp, lstale, lret, badDeliv, dropFlag>>
+  /\ UNCHANGED <<sess, trk, cst, wch, prevOpen, ret, lst, lusurp, lstale, lret, badDeliv, dropFlag, badReq>>
 
 ListenUsurpedExit(l) == lst[l] = "run" /\ lwch[l] = "closed" /\ lusurp[l] /\ ListenCleanup(l, "usurped")
 
@@ -253,6 +268,8 @@ QuiescentAnnounced ==
   Quiescent => \A c \in Call : (cst[c] = "reg" /\ Local(c) = c) => prevOpen[c] = (IF Remote(c) # None THEN "cur" ELSE "none")
 \* C22 (2) / C20: nothing is delivered under a stale announcement, nothing crosses an epoch
 DeliveryInAnnouncedEpoch == ~badDeliv
+\* C20 / C21: stale-stamped requests change nothing; an ack only ever affects the message it names
+RequestsNamedAndCurrent == ~badReq
 \* C22 (3): no request stamped with the announced epoch stays silently dropped
 NoSilentDropAtQuiescence == Quiescent => \A c \in Call : ~dropFlag[c]
 \* C24
@@ -275,5 +292,5 @@ SlotsRegistered == \A k \in Key : /\ sess[k].a # None => cst[sess[k].a] = "reg"
                                   /\ sess[k].ex <=> (sess[k].a # None \/ sess[k].b # None)
 WantsMatch == \A p \in Peer : peers[p].wants = {q \in Peer : \E c \in Call : cst[c] = "reg" /\ Local(c) = c /\ Src(c) = q /\ Dst(c) = p}
 
-View == <<sess, trk, cst, wch, prevOpen, peers, lst, lusurp, lsent, lwch, lstale, badDeliv, dropFlag>>
+View == <<sess, trk, cst, wch, prevOpen, peers, lst, lusurp, lsent, lwch, lstale, badDeliv, dropFlag, badReq>>
 =============================================================================
